@@ -1389,11 +1389,17 @@ def evaluate__parse_xml(self: XPathFunction, context: ta.ContextType = None) \
         raise self.missing_context()
 
     etree = context.etree
+    xml_parser = None
+    if hasattr(etree, 'TreeBuilder') and etree.__name__ == 'xml.etree.ElementTree':
+        # keep comments and processing instructions (lxml does it by default)
+        xml_parser = etree.XMLParser(
+            target=etree.TreeBuilder(insert_comments=True, insert_pis=True)
+        )
     try:
         if self.parser.defuse_xml:
-            root = etree.XML(defuse_xml(arg.encode('utf-8')))
+            root = etree.XML(defuse_xml(arg.encode('utf-8')), xml_parser)
         else:
-            root = etree.XML(arg.encode('utf-8'))
+            root = etree.XML(arg.encode('utf-8'), xml_parser)
     except etree.ParseError:
         raise self.error('FODC0006')
     else:
